@@ -380,6 +380,8 @@ func (p *printer) node(n *Node, ind int) {
 			target = "Card{Value: " + p.src(n.E, false, ind) + "}.View()"
 		case n.Callee == "box":
 			target = "Box[string]{Value: " + p.src(n.E, false, ind) + "}.View()"
+		case n.Callee == "flush":
+			target = "templ.Flush()"
 		case n.Callee == "index0":
 			target = "comps[0]"
 		case n.Callee == "index1":
